@@ -262,7 +262,7 @@ func (ex *Exec) loopModifies(li *loopInfo) map[*Alloc]bool {
 						if callee.Pkg != nil && pkgKeyOf(callee) == ex.pkg {
 							cfc = ex.vc.W.Contr[ex.pkg].Funcs[FuncKey(callee)]
 						}
-						if cfc != nil && !cfc.Pure && !(ex.fc != nil && ex.fc.Has("inline", FuncKey(callee))) {
+						if cfc != nil && !cfc.Pure && !(ex.fc != nil && (ex.fc.Has("inline", FuncKey(callee)) || ex.fc.Has("inline", callee.Name()))) {
 							if k < len(callee.Params) && cfc.Has("modifies", callee.Params[k].Name()) {
 								mark(a)
 							}
